@@ -41,6 +41,7 @@ func run(b *harness.B) {
 		runReadBound(b)
 		runErrorDelivery(b)
 		runCallerLimits(b)
+		runValidatorErrors(b)
 	case 3:
 		runTransports(b, false)
 	case 4:
